@@ -18,6 +18,9 @@ pub struct State {
     pub mem_seed: u64,
     /// Optional: abort the run on an access to an address in (-limit, limit) (signed)
     pub null_guard: Option<i128>,
+    /// Optional: the only valid memory (half-open address ranges); any access that is not completely
+    /// inside one range aborts the run (like a segmentation fault)
+    pub valid_ranges: Option<Vec<(u64, u64)>>,
 }
 
 #[derive(Clone, Debug, PartialEq, Eq, Hash)]
@@ -59,7 +62,7 @@ pub enum Stop {
 
 impl State {
     pub fn new(mem_seed: u64) -> State {
-        State { vars: BTreeMap::new(), mem: BTreeMap::new(), mem_seed, null_guard: None }
+        State { vars: BTreeMap::new(), mem: BTreeMap::new(), mem_seed, null_guard: None, valid_ranges: None }
     }
     pub fn set(&mut self, name: &str, v: u128, size: usize) {
         self.vars.insert(name.to_string(), rs::val(v, size));
@@ -206,12 +209,18 @@ pub fn run_sub(sub: &Term<Sub>, state: &mut State, regs: &[Variable], limits: &L
         None => return Run { events, stop: Stop::Finished, blocks: blocks_run, callother_returns: co_returns },
     };
     let mut nblocks = 0usize;
-    let ptr_null = |state: &State, addr: u64| -> bool {
+    let ptr_null_only = |state: &State, addr: u64| -> bool {
         if let Some(limit) = state.null_guard {
             let s = addr as i64 as i128;
             s > -limit && s < limit
         } else {
             false
+        }
+    };
+    let invalid = |state: &State, addr: u64, size: usize| -> bool {
+        match &state.valid_ranges {
+            Some(rs) => !rs.iter().any(|(lo, hi)| addr >= *lo && addr.checked_add(size as u64).map(|e| e <= *hi).unwrap_or(false)),
+            None => false,
         }
     };
     loop {
@@ -232,20 +241,20 @@ pub fn run_sub(sub: &Term<Sub>, state: &mut State, regs: &[Variable], limits: &L
                 }
                 Def::Load { var, address } => {
                     let a = state.eval(address).v as u64;
-                    if ptr_null(state, a) {
+                    let w = u64::from(var.size) as usize;
+                    if ptr_null_only(state, a) || invalid(state, a, w) {
                         return Run { events, stop: Stop::NullAccess, blocks: blocks_run, callother_returns: co_returns };
                     }
-                    let w = u64::from(var.size) as usize;
                     let v = state.read_mem(a, w);
                     events.push(Event::Read { addr: a, size: w, val: v });
                     state.vars.insert(var.name.clone(), rs::val(v, w));
                 }
                 Def::Store { address, value } => {
                     let a = state.eval(address).v as u64;
-                    if ptr_null(state, a) {
+                    let v = state.eval(value);
+                    if ptr_null_only(state, a) || invalid(state, a, v.w) {
                         return Run { events, stop: Stop::NullAccess, blocks: blocks_run, callother_returns: co_returns };
                     }
-                    let v = state.eval(value);
                     state.write_mem(a, v.w, v.v);
                     events.push(Event::Write { addr: a, size: v.w, val: v.v });
                 }
